@@ -3,37 +3,124 @@ From Gv Require Import C12.Model C12.Spec C12.ProofsBase C12.ProofsReg.
 From Coq Require Import List Bool Arith PeanoNat Lia.
 Import ListNotations.
 
-(* log is newest first: a writer call is never preceded (chronologically) by the removal of that
-   subscriber, a close of completed_s always is *)
-Fixpoint wfl (l : list obs) : Prop :=
-  match l with
-  | [] => True
-  | o :: r => match o with
-              | OW s _ => ~ In (GRemoved s) r
-              | OClosed s => In (GRemoved s) r
-              | _ => True
-              end /\ wfl r
+(* ---- histories: a condition on every entry and its past ---- *)
+Section Hist.
+  Variable cond : obs -> list obs -> Prop.      (* entry, its past (newest first) *)
+  Fixpoint histr (l : list obs) : Prop :=       (* l newest first *)
+    match l with [] => True | o :: r => cond o r /\ histr r end.
+  Definition hist (l : list obs) : Prop :=      (* l chronological *)
+    forall l1 o l2, l = l1 ++ o :: l2 -> cond o (rev l1).
+
+  Lemma snoc_split : forall (l1 : list obs) x l2 a o, l1 ++ x :: l2 = a ++ [o] ->
+    (l2 = [] /\ x = o /\ l1 = a) \/ (exists l2', l2 = l2' ++ [o] /\ a = l1 ++ x :: l2').
+  Proof.
+    intros l1 x l2 a o H. destruct (rev l2) as [|y r] eqn:E.
+    - left. assert (l2 = []) by (rewrite <- (rev_involutive l2), E; reflexivity). subst.
+      apply app_inj_tail in H. tauto.
+    - right. assert (El : l2 = rev r ++ [y]) by (rewrite <- (rev_involutive l2), E; reflexivity). subst l2.
+      change (l1 ++ x :: rev r ++ [y]) with (l1 ++ (x :: rev r) ++ [y]) in H. rewrite app_assoc in H.
+      apply app_inj_tail in H. destruct H as [H1 H2]. subst. exists (rev r). split; auto.
+  Qed.
+
+  Lemma histr_hist : forall l, histr l <-> hist (rev l).
+  Proof.
+    induction l as [|o r IH]; simpl.
+    - split; auto. intros _ l1 o l2 H. destruct l1; discriminate.
+    - split.
+      + intros [Hc Hr] l1 x l2 H. symmetry in H. apply snoc_split in H. destruct H as [(-> & -> & ->)|(l2' & -> & E)].
+        * rewrite rev_involutive. exact Hc.
+        * apply IH in Hr. eapply Hr; eauto.
+      + intros H. split.
+        * specialize (H (rev r) o [] eq_refl). rewrite rev_involutive in H. exact H.
+        * apply IH. intros l1 x l2 E. apply (H l1 x (l2 ++ [o])). rewrite E, <- app_assoc. reflexivity.
+  Qed.
+
+  Variable cb : obs -> list obs -> bool.
+  Hypothesis cb_ok : forall o p, cb o p = true <-> cond o p.
+
+  Lemma hist_b_spec : forall l past,
+    hist_b cb past l = true <-> (forall l1 o l2, l = l1 ++ o :: l2 -> cond o (rev l1 ++ past)).
+  Proof.
+    induction l as [|x r IH]; intros past; simpl.
+    - split; auto. intros _ l1 o l2 H. destruct l1; discriminate.
+    - rewrite andb_true_iff, cb_ok, IH. split.
+      + intros [Hc Hr] l1 o l2 H. destruct l1 as [|y l1]; simpl in H; inversion H; subst.
+        * exact Hc.
+        * simpl. rewrite <- app_assoc. simpl. eapply Hr; eauto.
+      + intros H. split.
+        * apply (H [] x r eq_refl).
+        * intros l1 o l2 E. specialize (H (x :: l1) o l2). simpl in H. rewrite <- app_assoc in H. simpl in H.
+          apply H. rewrite E. reflexivity.
+  Qed.
+
+  Lemma hist_b_ok : forall l, hist_b cb [] l = true <-> hist l.
+  Proof.
+    intros l. rewrite hist_b_spec. unfold hist. split; intros H l1 o l2 E; specialize (H l1 o l2 E);
+      rewrite app_nil_r in *; exact H.
+  Qed.
+End Hist.
+
+(* ---- counting entries ---- *)
+Definition B (b : bool) : nat := if b then 1 else 0.
+
+Lemma cnt_filter_rev : forall (f : obs -> bool) l, length (filter f (rev l)) = length (filter f l).
+Proof.
+  induction l; simpl; auto. rewrite filter_app, app_length, IHl. simpl. destruct (f a); simpl; lia.
+Qed.
+Lemma nw_rev : forall s l, nw s (rev l) = nw s l. Proof. intros; apply cnt_filter_rev. Qed.
+Lemma nwe_rev : forall s l, nwe s (rev l) = nwe s l. Proof. intros; apply cnt_filter_rev. Qed.
+Lemma nclosed_rev : forall s l, nclosed s (rev l) = nclosed s l. Proof. intros; apply cnt_filter_rev. Qed.
+Lemma nw_app : forall s a b, nw s (a ++ b) = nw s a + nw s b.
+Proof. unfold nw; intros; rewrite filter_app, app_length; auto. Qed.
+Lemma nwe_app : forall s a b, nwe s (a ++ b) = nwe s a + nwe s b.
+Proof. unfold nwe; intros; rewrite filter_app, app_length; auto. Qed.
+Lemma nclosed_app : forall s a b, nclosed s (a ++ b) = nclosed s a + nclosed s b.
+Proof. unfold nclosed; intros; rewrite filter_app, app_length; auto. Qed.
+Lemma nclosed_zero : forall s l, nclosed s l = 0 <-> ~ In (OClosed s) l.
+Proof.
+  unfold nclosed. induction l as [|o l]; simpl; [tauto|].
+  destruct (is_oclosed s o) eqn:E; simpl.
+  - split; [lia|]. intros H. exfalso. apply H. left. destruct o; simpl in E; try discriminate.
+    apply Nat.eqb_eq in E. subst. reflexivity.
+  - rewrite IHl. split; intros H; [intros [Hx|Hi]; [subst; simpl in E; rewrite Nat.eqb_refl in E; discriminate|auto]|auto].
+Qed.
+
+(* log is newest first.  A writer call of s is entered / returns only while completed_s is open, calls
+   of s alternate (enter, return, enter, ...), and completed_s is closed only after the removal of s
+   and while no call of s is in progress *)
+Definition wcond (o : obs) (r : list obs) : Prop :=
+  match o with
+  | OW s _ => nclosed s r = 0 /\ nw s r = nwe s r
+  | OWE s _ => nclosed s r = 0 /\ nw s r = S (nwe s r)
+  | OClosed s => In (GRemoved s) r /\ nw s r = nwe s r
+  | _ => True
   end.
+Definition wfl : list obs -> Prop := histr wcond.
 
 Definition neutral (o : obs) : bool :=
-  match o with OW _ _ | OClosed _ | GRemoved _ => false | _ => true end.
+  match o with OW _ _ | OWE _ _ | OClosed _ | GRemoved _ => false | _ => true end.
 
-Definition is_oclosed (s : sid) (o : obs) : bool := match o with OClosed s' => s' =? s | _ => false end.
-Definition nclosed (s : sid) (l : list obs) : nat := length (filter (is_oclosed s) l).
-Definition is_close (s : sid) (i : instr) : bool := match i with IClose s' => s' =? s | _ => false end.
+Definition is_close (s : sid) (i : instr) : bool := match i with ICloseLoop l => mem s l | _ => false end.
+Definition is_wcont (s : sid) (i : instr) : bool := match i with IWCont s' _ _ _ => s' =? s | _ => false end.
 
 Record WC (st : state) : Prop := {
   wc_rem : forall s, s_removed (subs st s) = true <-> In (GRemoved s) (log st);
   wc_wfl : wfl (log st);
   wc_nclosed : forall s, nclosed s (log st) = s_closed (subs st s);
-  wc_fresh : forall s, ~ In s (allsubs st) -> s_removed (subs st s) = false /\ s_closed (subs st s) = 0 }.
+  wc_fresh : forall s, ~ In s (allsubs st) -> s_removed (subs st s) = false /\ s_closed (subs st s) = 0;
+  (* writeMu of s is held exactly while a call of s is in progress, and never while completed_s is closed *)
+  wc_wl : forall s, nw s (log st) = nwe s (log st) + B (mem s (wlk st));
+  wc_lk : forall s, mem s (wlk st) = true -> s_closed (subs st s) = 0 }.
 
+(* thread side: the IClose of a removed subscriber is pending or done; the holder of writeMu is the
+   one thread that still has to leave the region *)
 Definition WT (st : state) : Prop :=
-  forall s, s_closed (subs st s) + cnt (is_close s) (threads st) = (if s_removed (subs st s) then 1 else 0).
+  forall s, s_closed (subs st s) + cnt (is_close s) (threads st) = (if s_removed (subs st s) then 1 else 0) /\
+            cnt (is_wcont s) (threads st) = B (mem s (wlk st)).
 
 Lemma wfl_neutral : forall added l, forallb neutral added = true -> wfl l -> wfl (added ++ l).
 Proof.
-  induction added; simpl; intros; auto. apply andb_true_iff in H. destruct H.
+  unfold wfl. induction added; simpl; intros; auto. apply andb_true_iff in H. destruct H.
   split; auto. destruct a; simpl in *; auto; discriminate.
 Qed.
 Lemma In_neutral : forall added l s, forallb neutral added = true -> (In (GRemoved s) (added ++ l) <-> In (GRemoved s) l).
@@ -41,87 +128,210 @@ Proof.
   intros. rewrite in_app_iff. split; auto. intros [Hi|]; auto.
   rewrite forallb_forall in H. apply H in Hi. discriminate.
 Qed.
+Lemma filter_nil_all : forall (f : obs -> bool) l, (forall o, In o l -> f o = false) -> filter f l = [].
+Proof. induction l; simpl; intros; auto. rewrite H by (left; auto). apply IHl. intros; apply H; right; auto. Qed.
 Lemma nclosed_neutral : forall added l s, forallb neutral added = true -> nclosed s (added ++ l) = nclosed s l.
 Proof.
-  unfold nclosed; intros. rewrite filter_app, app_length.
-  assert (filter (is_oclosed s) added = []).
-  { induction added; simpl in *; auto. apply andb_true_iff in H. destruct H. destruct a; simpl in *; auto; discriminate. }
-  rewrite H0. auto.
+  intros. rewrite nclosed_app. unfold nclosed at 1. rewrite filter_nil_all; auto.
+  intros o Ho. rewrite forallb_forall in H. apply H in Ho. destruct o; simpl in *; auto; discriminate.
+Qed.
+Lemma nw_neutral : forall added l s, forallb neutral added = true -> nw s (added ++ l) = nw s l.
+Proof.
+  intros. rewrite nw_app. unfold nw at 1. rewrite filter_nil_all; auto.
+  intros o Ho. rewrite forallb_forall in H. apply H in Ho. destruct o; simpl in *; auto; discriminate.
+Qed.
+Lemma nwe_neutral : forall added l s, forallb neutral added = true -> nwe s (added ++ l) = nwe s l.
+Proof.
+  intros. rewrite nwe_app. unfold nwe at 1. rewrite filter_nil_all; auto.
+  intros o Ho. rewrite forallb_forall in H. apply H in Ho. destruct o; simpl in *; auto; discriminate.
 Qed.
 
-(* a region that leaves the removed / closed flags alone and logs only neutral entries *)
+(* a region that leaves the removed / closed flags and writeMu alone and logs only neutral entries *)
 Lemma WC_neutral : forall st st1 added,
   WC st -> log st1 = added ++ log st -> forallb neutral added = true ->
   (forall s, s_removed (subs st1 s) = s_removed (subs st s) /\ s_closed (subs st1 s) = s_closed (subs st s)) ->
   (forall s, In s (allsubs st) -> In s (allsubs st1)) ->
+  wlk st1 = wlk st ->
   WC st1.
 Proof.
-  intros st st1 added H Hl Hn Hs Ha. constructor.
+  intros st st1 added H Hl Hn Hs Ha Hw. constructor.
   - intros s. destruct (Hs s) as [-> _]. rewrite Hl, In_neutral by auto. apply (wc_rem _ H).
   - rewrite Hl. apply wfl_neutral; auto. apply (wc_wfl _ H).
   - intros s. destruct (Hs s) as [_ ->]. rewrite Hl, nclosed_neutral by auto. apply (wc_nclosed _ H).
   - intros s Hni. destruct (Hs s) as [-> ->]. apply (wc_fresh _ H). auto.
+  - intros s. rewrite Hl, Hw, nw_neutral, nwe_neutral by auto. apply (wc_wl _ H).
+  - intros s. rewrite Hw. destruct (Hs s) as [_ ->]. apply (wc_lk _ H).
 Qed.
 
-Definition quiet (o : obs) : bool := match o with OW _ _ | OClosed _ => false | _ => true end.
+Definition quiet (o : obs) : bool := match o with OW _ _ | OWE _ _ | OClosed _ => false | _ => true end.
 Lemma wfl_quiet : forall added l, forallb quiet added = true -> wfl l -> wfl (added ++ l).
 Proof.
-  induction added; simpl; intros; auto. apply andb_true_iff in H. destruct H.
+  unfold wfl. induction added; simpl; intros; auto. apply andb_true_iff in H. destruct H.
   split; auto. destruct a; simpl in *; auto; discriminate.
 Qed.
 Lemma nclosed_quiet : forall added l s, forallb quiet added = true -> nclosed s (added ++ l) = nclosed s l.
 Proof.
-  unfold nclosed; intros. rewrite filter_app, app_length.
-  assert (filter (is_oclosed s) added = []).
-  { induction added; simpl in *; auto. apply andb_true_iff in H. destruct H. destruct a; simpl in *; auto; discriminate. }
-  rewrite H0. auto.
+  intros. rewrite nclosed_app. unfold nclosed at 1. rewrite filter_nil_all; auto.
+  intros o Ho. rewrite forallb_forall in H. apply H in Ho. destruct o; simpl in *; auto; discriminate.
+Qed.
+Lemma nw_quiet_app : forall added l s, forallb quiet added = true -> nw s (added ++ l) = nw s l.
+Proof.
+  intros. rewrite nw_app. unfold nw at 1. rewrite filter_nil_all; auto.
+  intros o Ho. rewrite forallb_forall in H. apply H in Ho. destruct o; simpl in *; auto; discriminate.
+Qed.
+Lemma nwe_quiet_app : forall added l s, forallb quiet added = true -> nwe s (added ++ l) = nwe s l.
+Proof.
+  intros. rewrite nwe_app. unfold nwe at 1. rewrite filter_nil_all; auto.
+  intros o Ho. rewrite forallb_forall in H. apply H in Ho. destruct o; simpl in *; auto; discriminate.
+Qed.
+
+(* no registry region touches writeMu *)
+Lemma cas_wlk : forall st s st' c, cas_removed st s = (st', c) -> wlk st' = wlk st.
+Proof. unfold cas_removed; intros. destruct (s_removed (subs st s)); inversion H; subst; reflexivity. Qed.
+Lemma remove_locked_wlk : forall st s st' r, remove_locked st s = (st', r) -> wlk st' = wlk st.
+Proof.
+  unfold remove_locked; intros.
+  destruct (negb (mem s (byid st))); [inversion H; subst; reflexivity|].
+  destruct (lookup_reg _ _); [|inversion H; subst; reflexivity].
+  destruct (negb (mem s _)); [inversion H; subst; reflexivity|].
+  destruct (cas_removed st s) as [st1 cl] eqn:E. apply cas_wlk in E.
+  destruct (rem s _); inversion H; subst; simpl; auto.
+Qed.
+Lemma detach_subs_wlk : forall l st st' c, detach_subs st l = (st', c) -> wlk st' = wlk st.
+Proof.
+  induction l; simpl; intros.
+  - inversion H; subst; reflexivity.
+  - destruct (cas_removed st a) as [st1 c1] eqn:E1.
+    destruct (detach_subs (unregister st1 a) l) as [st2 c2] eqn:E2.
+    inversion H; subst. apply cas_wlk in E1. apply IHl in E2. simpl in E2. congruence.
+Qed.
+Lemma detach_locked_wlk : forall st t st' r, detach_locked st t = (st', r) -> wlk st' = wlk st.
+Proof.
+  unfold detach_locked; intros.
+  destruct (detach_subs st (t_subs (trigs st t))) as [st1 cl] eqn:E.
+  apply detach_subs_wlk in E. inversion H; subst. simpl. auto.
+Qed.
+Lemma remove_many_wlk : forall l st st' r, remove_many st l = (st', r) -> wlk st' = wlk st.
+Proof.
+  induction l; simpl; intros.
+  - inversion H; subst; reflexivity.
+  - destruct (remove_locked st a) as [st1 r1] eqn:E1. destruct (remove_many st1 l) as [st2 r2] eqn:E2.
+    inversion H; subst. apply remove_locked_wlk in E1. apply IHl in E2. congruence.
+Qed.
+Lemma detach_many_wlk : forall l st st' r, detach_many st l = (st', r) -> wlk st' = wlk st.
+Proof.
+  induction l; simpl; intros.
+  - inversion H; subst; reflexivity.
+  - destruct (detach_locked st a) as [st1 r1] eqn:E1. destruct (detach_many st1 l) as [st2 r2] eqn:E2.
+    inversion H; subst. apply detach_locked_wlk in E1. apply IHl in E2. congruence.
 Qed.
 
 Lemma WC_removal : forall st0 st1 r,
-  WC st0 -> RM st0 st1 r -> (forall s, In s (byid st0) -> In s (allsubs st0)) -> WC st1.
+  WC st0 -> RM st0 st1 r -> (forall s, In s (byid st0) -> In s (allsubs st0)) -> wlk st1 = wlk st0 -> WC st1.
 Proof.
-  intros st0 st1 r H R Hb. constructor.
+  intros st0 st1 r H R Hb Hw.
+  assert (Hq : forallb quiet (map GRemoved (rev (rr_close r))) = true).
+  { apply forallb_forall. intros o Hi. apply in_map_iff in Hi. destruct Hi as [x [<- _]]. auto. }
+  constructor.
   - intros s. rewrite (rm_subs _ _ _ R), (rm_log _ _ _ R), in_app_iff, in_map_iff.
     destruct (mem s (rr_close r)) eqn:E.
     + simpl. split; auto. intros _. left. exists s. split; auto. apply in_rev. rewrite rev_involutive. apply mem_In; auto.
     + rewrite (wc_rem _ H). split; auto. intros [[x [Hx Hi]]|]; auto. inversion Hx; subst.
       apply in_rev in Hi. apply mem_In in Hi. congruence.
-  - rewrite (rm_log _ _ _ R). apply wfl_quiet; [|apply (wc_wfl _ H)].
-    apply forallb_forall. intros o Hi. apply in_map_iff in Hi. destruct Hi as [x [<- _]]. auto.
-  - intros s. rewrite (rm_subs _ _ _ R), (rm_log _ _ _ R), nclosed_quiet.
-    + rewrite (wc_nclosed _ H). destruct (mem s (rr_close r)); auto.
-    + apply forallb_forall. intros o Hi. apply in_map_iff in Hi. destruct Hi as [x [<- _]]. auto.
+  - rewrite (rm_log _ _ _ R). apply wfl_quiet; [exact Hq|apply (wc_wfl _ H)].
+  - intros s. rewrite (rm_subs _ _ _ R), (rm_log _ _ _ R), nclosed_quiet by exact Hq.
+    rewrite (wc_nclosed _ H). destruct (mem s (rr_close r)); auto.
   - intros s Hn. destruct (rm_frame _ _ _ R) as (_ & _ & Ha & _). rewrite Ha in Hn.
     rewrite (rm_subs _ _ _ R). destruct (mem s (rr_close r)) eqn:E.
     + exfalso. apply Hn, Hb. apply mem_In in E. apply (rm_close_in _ _ _ R s E).
     + apply (wc_fresh _ H); auto.
+  - intros s. rewrite (rm_log _ _ _ R), Hw, nw_quiet_app, nwe_quiet_app by exact Hq. apply (wc_wl _ H).
+  - intros s. rewrite Hw, (rm_subs _ _ _ R). intros Hm. destruct (mem s (rr_close r)); simpl; apply (wc_lk _ H); auto.
 Qed.
 
-(* writer calls of subscriber s, all inside one W_s region that saw removed_s = false *)
-Lemma WC_write : forall st st1 s ws,
-  WC st -> s_removed (subs st s) = false -> log st1 = ws ++ log st ->
-  Forall (fun o => exists c, o = OW s c) ws ->
-  (forall s', s_removed (subs st1 s') = s_removed (subs st s') /\ s_closed (subs st1 s') = s_closed (subs st s')) ->
-  allsubs st1 = allsubs st -> WC st1.
+Lemma mem_cons_same : forall s l, mem s (s :: l) = true.
+Proof. intros. unfold mem. simpl. rewrite Nat.eqb_refl. reflexivity. Qed.
+Lemma mem_cons_other : forall s s' l, s' <> s -> mem s' (s :: l) = mem s' l.
+Proof. intros. unfold mem. simpl. destruct (Nat.eqb_spec s' s); [congruence|reflexivity]. Qed.
+Lemma mem_rem_same : forall s l, mem s (rem s l) = false.
+Proof. intros. apply mem_nIn. intro H. apply In_rem in H. tauto. Qed.
+Lemma mem_rem_other : forall s s' l, s' <> s -> mem s' (rem s l) = mem s' l.
 Proof.
-  intros st st1 s ws H Hr Hl Hw Hs Ha.
-  assert (Hng : ~ In (GRemoved s) (log st)).
-  { intro Hi. apply (wc_rem _ H) in Hi. congruence. }
-  constructor.
-  - intros s'. destruct (Hs s') as [-> _]. rewrite Hl, in_app_iff, (wc_rem _ H). split; auto.
-    intros [Hi|]; auto. rewrite Forall_forall in Hw. apply Hw in Hi. destruct Hi as [c Hc]. discriminate.
-  - rewrite Hl. clear Hl. induction ws; simpl; [apply (wc_wfl _ H)|].
-    inversion Hw; subst. destruct H2 as [c ->]. split; [|auto].
-    rewrite in_app_iff. intros [Hi|Hi]; [|tauto].
-    rewrite Forall_forall in H3. apply H3 in Hi. destruct Hi as [c' Hc]. discriminate.
-  - intros s'. destruct (Hs s') as [_ ->]. rewrite Hl, <- (wc_nclosed _ H). unfold nclosed. rewrite filter_app, app_length.
-    assert (filter (is_oclosed s') ws = []).
-    { assert (Hq : forall o, In o ws -> is_oclosed s' o = false).
-      { intros o Hi. rewrite Forall_forall in Hw. destruct (Hw o Hi) as [c ->]. auto. }
-      clear - Hq. induction ws; simpl; auto. rewrite Hq by (left; auto). apply IHws. intros; apply Hq; right; auto. }
-    rewrite H0. auto.
-  - intros s' Hn. destruct (Hs s') as [-> ->]. rewrite Ha in Hn. apply (wc_fresh _ H); auto.
+  intros. destruct (mem s' l) eqn:E.
+  - apply mem_In. apply In_rem. split; auto. apply mem_In; auto.
+  - apply mem_nIn. intro Hi. apply In_rem in Hi. apply mem_nIn in E. tauto.
 Qed.
+
+Lemma cnt_ow_other : forall s s' c l, s' <> s -> nw s' (OW s c :: l) = nw s' l /\ nwe s' (OW s c :: l) = nwe s' l /\ nclosed s' (OW s c :: l) = nclosed s' l.
+Proof. intros. unfold nw, nwe, nclosed. simpl. destruct (Nat.eqb_spec s s'); [congruence|auto]. Qed.
+Lemma cnt_owe_other : forall s s' c l, s' <> s -> nw s' (OWE s c :: l) = nw s' l /\ nwe s' (OWE s c :: l) = nwe s' l /\ nclosed s' (OWE s c :: l) = nclosed s' l.
+Proof. intros. unfold nw, nwe, nclosed. simpl. destruct (Nat.eqb_spec s s'); [congruence|auto]. Qed.
+Lemma cnt_ow_same : forall s c l, nw s (OW s c :: l) = S (nw s l) /\ nwe s (OW s c :: l) = nwe s l /\ nclosed s (OW s c :: l) = nclosed s l.
+Proof. intros. unfold nw, nwe, nclosed. simpl. rewrite Nat.eqb_refl. auto. Qed.
+Lemma cnt_owe_same : forall s c l, nw s (OWE s c :: l) = nw s l /\ nwe s (OWE s c :: l) = S (nwe s l) /\ nclosed s (OWE s c :: l) = nclosed s l.
+Proof. intros. unfold nw, nwe, nclosed. simpl. rewrite Nat.eqb_refl. auto. Qed.
+
+Opaque mem rem.
+(* writeMu of s acquired with removed_s = false, call c entered *)
+Lemma WC_enter : forall st s c,
+  WC st -> s_removed (subs st s) = false -> s_closed (subs st s) = 0 -> mem s (wlk st) = false ->
+  WC (wenter st s c).
+Proof.
+  intros st s c H Hr Hc Hm. unfold wenter. constructor; simpl.
+  - intros s'. rewrite (wc_rem _ H). split; auto. intros [Hx|]; auto. discriminate.
+  - split; [|apply (wc_wfl _ H)]. split.
+    + rewrite (wc_nclosed _ H). exact Hc.
+    + pose proof (wc_wl _ H s) as E. rewrite Hm in E. simpl in E. lia.
+  - intros s'. rewrite <- (wc_nclosed _ H). unfold nclosed. reflexivity.
+  - apply (wc_fresh _ H).
+  - intros s'. destruct (Nat.eq_dec s' s) as [->|Hne].
+    + destruct (cnt_ow_same s c (log st)) as (-> & -> & _). rewrite mem_cons_same.
+      pose proof (wc_wl _ H s) as E. rewrite Hm in E. simpl in *. lia.
+    + destruct (cnt_ow_other s s' c (log st) Hne) as (-> & -> & _). rewrite mem_cons_other by auto. apply (wc_wl _ H).
+  - intros s'. destruct (Nat.eq_dec s' s) as [->|Hne]; [auto|]. rewrite mem_cons_other by auto. apply (wc_lk _ H).
+Qed.
+
+(* the last call of the region returns, writeMu released *)
+Lemma WC_leave : forall st s c,
+  WC st -> mem s (wlk st) = true -> WC (st_log (st_wl st (rem s (wlk st))) [OWE s c]).
+Proof.
+  intros st s c H Hm. constructor; simpl.
+  - intros s'. rewrite (wc_rem _ H). split; auto. intros [Hx|]; auto. discriminate.
+  - split; [|apply (wc_wfl _ H)]. split.
+    + rewrite (wc_nclosed _ H). apply (wc_lk _ H); auto.
+    + pose proof (wc_wl _ H s) as E. rewrite Hm in E. simpl in E. lia.
+  - intros s'. rewrite <- (wc_nclosed _ H). unfold nclosed. reflexivity.
+  - apply (wc_fresh _ H).
+  - intros s'. destruct (Nat.eq_dec s' s) as [->|Hne].
+    + destruct (cnt_owe_same s c (log st)) as (-> & -> & _). rewrite mem_rem_same.
+      pose proof (wc_wl _ H s) as E. rewrite Hm in E. simpl in *. lia.
+    + destruct (cnt_owe_other s s' c (log st) Hne) as (-> & -> & _). rewrite mem_rem_other by auto. apply (wc_wl _ H).
+  - intros s' Hs'. apply (wc_lk _ H). destruct (Nat.eq_dec s' s) as [->|Hne]; [auto|]. rewrite mem_rem_other in Hs' by auto. auto.
+Qed.
+
+(* a call returns and the next call of the same region is entered: writeMu stays held *)
+Lemma WC_next : forall st s c c',
+  WC st -> mem s (wlk st) = true -> WC (emit st [OWE s c; OW s c']).
+Proof.
+  intros st s c c' H Hm. unfold emit. simpl.
+  assert (Hcl : nclosed s (log st) = 0) by (rewrite (wc_nclosed _ H); apply (wc_lk _ H); auto).
+  pose proof (wc_wl _ H s) as E. rewrite Hm in E. simpl in E.
+  constructor; simpl.
+  - intros s'. rewrite (wc_rem _ H). split; auto. intros [Hx|[Hx|]]; auto; discriminate.
+  - destruct (cnt_owe_same s c (log st)) as (E1 & E2 & E3).
+    split; [split; [rewrite E3; exact Hcl|rewrite E1, E2; lia]|].
+    split; [split; [exact Hcl|lia]|apply (wc_wfl _ H)].
+  - intros s'. rewrite <- (wc_nclosed _ H). unfold nclosed. reflexivity.
+  - apply (wc_fresh _ H).
+  - intros s'. destruct (Nat.eq_dec s' s) as [->|Hne].
+    + destruct (cnt_ow_same s c' (OWE s c :: log st)) as (-> & -> & _).
+      destruct (cnt_owe_same s c (log st)) as (-> & -> & _). rewrite Hm. simpl. lia.
+    + destruct (cnt_ow_other s s' c' (OWE s c :: log st) Hne) as (-> & -> & _).
+      destruct (cnt_owe_other s s' c (log st) Hne) as (-> & -> & _). apply (wc_wl _ H).
+  - apply (wc_lk _ H).
+Qed.
+
+Transparent mem rem.
 
 (* counting IClose over pushed programs *)
 Lemma cntl_map_zero : forall A (p : instr -> bool) (f : A -> instr) l, (forall x, p (f x) = false) -> cntl p (map f l) = 0.
@@ -129,23 +339,18 @@ Proof. unfold cntl; induction l; simpl; intros; auto. rewrite H. auto. Qed.
 Lemma cnt_map_zero : forall A (p : instr -> bool) (f : A -> tname * list instr) l,
   (forall x, cntl p (snd (f x)) = 0) -> cnt p (map f l) = 0.
 Proof. induction l; simpl; intros; auto. destruct (f a) eqn:E. specialize (H a) as Ha. rewrite E in Ha. simpl in Ha. rewrite Ha, IHl; auto. Qed.
-Lemma cntl_close_map : forall s l, NoDup l -> cntl (is_close s) (map IClose l) = if mem s l then 1 else 0.
-Proof.
-  unfold cntl; induction l; simpl; intros; auto. inversion H; subst. rewrite (Nat.eqb_sym s a).
-  destruct (Nat.eqb_spec a s); simpl.
-  - subst. rewrite IHl by auto. rewrite (proj2 (mem_nIn s l)); auto.
-  - apply IHl; auto.
-Qed.
-Lemma cntl_after_remove : forall s r, NoDup (rr_close r) ->
+Lemma cntl_close_map : forall s l, cntl (is_close s) (map ICloseLoop (closel l)) = if mem s l then 1 else 0.
+Proof. intros s l. destruct l as [|x l]; [reflexivity|]. unfold cntl. simpl. destruct ((s =? x) || mem s l); reflexivity. Qed.
+Lemma cntl_after_remove : forall s r,
   cntl (is_close s) (after_remove r) = if mem s (rr_close r) then 1 else 0.
 Proof.
-  intros. unfold after_remove. rewrite cntl_app, cntl_close_map by auto. rewrite cntl_map_zero by auto. lia.
+  intros. unfold after_remove. rewrite cntl_app, cntl_close_map. rewrite cntl_map_zero by auto. lia.
 Qed.
 
 Definition R (st : state) (s : sid) : nat := if s_removed (subs st s) then 1 else 0.
 
 Ltac cnt_simpl :=
-  unfold unsub_prog, uprog, ubody, celoop, hbtrigs, hbsubs in *;
+  unfold unsub_prog, uprog, ubody, celoop, hbtrigs, hbsubs, errloop in *;
   repeat (rewrite ?cntl_app, ?cntl_cons, ?cnt_app; simpl);
   repeat match goal with
          | |- context [cntl _ (map _ _)] => rewrite cntl_map_zero by (intros; reflexivity)
@@ -159,28 +364,74 @@ Ltac flags_tac :=
   intros; simpl; unfold upd;
   repeat (match goal with |- context [Nat.eqb ?a ?b] => destruct (Nat.eqb_spec a b); subst end); simpl; auto.
 
+(* what one instruction does to the pending closes and to the holder of writeMu *)
+Definition texec (st : state) (i : instr) (st1 : state) (push : list instr) (sp : list (tname * list instr)) : Prop :=
+  forall s, (s_closed (subs st1 s) + cntl (is_close s) push + cnt (is_close s) sp + R st s
+             = s_closed (subs st s) + (if is_close s i then 1 else 0) + R st1 s) /\
+            (cntl (is_wcont s) push + cnt (is_wcont s) sp + B (mem s (wlk st))
+             = (if is_wcont s i then 1 else 0) + B (mem s (wlk st1))).
+
 Lemma removal_wi : forall st stp st0 r stF i,
   RG stp -> WC stp -> RM stp st0 r ->
   (forall s, subs stp s = subs st s) ->
   (exists added, log stF = added ++ log st0 /\ forallb neutral added = true) ->
   (forall s, subs stF s = subs st0 s) -> allsubs stF = allsubs st0 ->
   (forall s, is_close s i = false) ->
-  WC stF /\
-  forall s, s_closed (subs stF s) + cntl (is_close s) (after_remove r) + cnt (is_close s) [] + R st s
-            = s_closed (subs st s) + (if is_close s i then 1 else 0) + R stF s.
+  (forall s, is_wcont s i = false) -> wlk stp = wlk st -> wlk st0 = wlk stp -> wlk stF = wlk st0 ->
+  WC stF /\ texec st i stF (after_remove r) [].
 Proof.
-  intros st stp st0 r stF i HR HC HM Hp [added [Hl Hn]] Hs Ha Hi.
+  intros st stp st0 r stF i HR HC HM Hp [added [Hl Hn]] Hs Ha Hi Hwi Hw1 Hw2 Hw3.
   assert (HC0 : WC st0).
   { eapply WC_removal; eauto. intros s Hb. apply (rg_byid _ HR s Hb). }
   split.
-  - eapply WC_neutral; [exact HC0|exact Hl|exact Hn| |rewrite Ha; auto].
+  - eapply WC_neutral; [exact HC0|exact Hl|exact Hn| |rewrite Ha; auto|exact Hw3].
     intros s. rewrite Hs. auto.
-  - intros s. unfold R. rewrite Hi, Hs, (rm_subs _ _ _ HM), Hp, cntl_after_remove by apply (rm_close_nd _ _ _ HM).
-    simpl. destruct (mem s (rr_close r)) eqn:E; simpl; try lia.
-    apply mem_In in E. destruct (rm_close_in _ _ _ HM s E) as [_ Hr]. rewrite Hp in Hr. rewrite Hr. lia.
+  - intros s. split.
+    + unfold R. rewrite Hi, Hs, (rm_subs _ _ _ HM), Hp, cntl_after_remove.
+      simpl. destruct (mem s (rr_close r)) eqn:E; simpl; try lia.
+      apply mem_In in E. destruct (rm_close_in _ _ _ HM s E) as [_ Hr]. rewrite Hp in Hr. rewrite Hr. lia.
+    + rewrite Hwi, Hw3, Hw2, Hw1. unfold after_remove. rewrite cntl_app, !cntl_map_zero by auto. simpl. lia.
 Qed.
 
-Definition cnt_noclose (p : list instr) : Prop := forall s, cntl (is_close s) p = 0.
+Lemma B_mem_cons : forall s s' l, mem s l = false -> B (mem s' (s :: l)) = B (s =? s') + B (mem s' l).
+Proof.
+  intros. destruct (Nat.eqb_spec s s').
+  - subst. rewrite mem_cons_same, H. reflexivity.
+  - rewrite mem_cons_other by auto. reflexivity.
+Qed.
+Lemma B_mem_rem : forall s s' l, mem s l = true -> B (mem s' (rem s l)) + B (s =? s') = B (mem s' l).
+Proof.
+  intros. destruct (Nat.eqb_spec s s').
+  - subst. rewrite mem_rem_same, H. reflexivity.
+  - rewrite mem_rem_other by auto. simpl. lia.
+Qed.
+
+Lemma texec_enter : forall st s c more u i,
+  mem s (wlk st) = false -> (forall s', is_close s' i = false) -> (forall s', is_wcont s' i = false) ->
+  texec st i (wenter st s c) (wcont s c more u) [].
+Proof.
+  intros st s c more u i Hm Hc Hw s'. rewrite Hc, Hw. unfold wenter, wcont, R.
+  change (wlk (st_log (st_wl st (s :: wlk st)) [OW s c])) with (s :: wlk st).
+  change (subs (st_log (st_wl st (s :: wlk st)) [OW s c])) with (subs st).
+  rewrite B_mem_cons by auto. unfold cntl. simpl. destruct (s =? s'); simpl; lia.
+Qed.
+Lemma texec_leave : forall st s c u,
+  mem s (wlk st) = true ->
+  texec st (IWCont s c None u) (st_log (st_wl st (rem s (wlk st))) [OWE s c]) (if u then unsub_prog s else []) [].
+Proof.
+  intros st s c u Hm s'. unfold R.
+  change (wlk (st_log (st_wl st (rem s (wlk st))) [OWE s c])) with (rem s (wlk st)).
+  change (subs (st_log (st_wl st (rem s (wlk st))) [OWE s c])) with (subs st).
+  pose proof (B_mem_rem s s' (wlk st) Hm) as E.
+  destruct u; unfold unsub_prog, cntl; simpl; destruct (s =? s'); simpl in *; lia.
+Qed.
+Lemma texec_next : forall st s c n c' more u,
+  texec st (IWCont s c (Some n) u) (emit st [OWE s c; OW s c']) (wcont s c' more u) [].
+Proof.
+  intros st s c n c' more u s'. unfold R, wcont, emit, cntl. simpl. destruct (s =? s'); simpl; lia.
+Qed.
+
+Definition cnt_noclose (p : list instr) : Prop := forall s, cntl (is_close s) p = 0 /\ cntl (is_wcont s) p = 0.
 
 Section C12Step.
   Variable v : variant.
@@ -192,15 +443,19 @@ Section C12Step.
   Notation step := (step v flt wresf ev_bad hbfail).
   Hypothesis Hfa : fix_a v = true.
 
-  Definition texec (st : state) (i : instr) (st1 : state) (push : list instr) (sp : list (tname * list instr)) : Prop :=
-    forall s, s_closed (subs st1 s) + cntl (is_close s) push + cnt (is_close s) sp + R st s
-              = s_closed (subs st s) + (if is_close s i then 1 else 0) + R st1 s.
+  Ltac enter_tac HC Hnc :=
+    unfold wheld in *;
+    split;
+    [ apply WC_enter; [exact HC|assumption|apply Hnc; assumption|assumption]
+    | apply texec_enter; [assumption|reflexivity|reflexivity] ].
 
   Lemma WI_exec : forall st i x st1 push sp,
-    RG st -> WC st -> (forall s0, i = IClose s0 -> s_removed (subs st s0) = true) ->
+    RG st -> WC st -> (forall l s0, i = ICloseLoop l -> In s0 l -> s_removed (subs st s0) = true) ->
+    (forall s0, s_removed (subs st s0) = false -> s_closed (subs st s0) = 0) ->
+    (forall s0 c m u, i = IWCont s0 c m u -> mem s0 (wlk st) = true) ->
     exec st i x = Some (st1, push, sp) -> WC st1 /\ texec st i st1 push sp.
   Proof.
-    intros st i x st1 push sp HR HC Hcl He. unfold texec, R.
+    intros st i x st1 push sp HR HC Hcl Hnc Hwc He.
     exec_cases He;
       try (split;
            [ eapply WC_neutral;
@@ -211,8 +466,10 @@ Section C12Step.
                     | simpl; reflexivity ]
              |try reflexivity
              |flags_tac
-             |simpl; auto]
-           | intros s'; cnt_simpl; flags_tac; try lia]; fail).
+             |simpl; auto
+             |reflexivity]
+           | unfold texec, R; intros s'; split; cnt_simpl; flags_tac; try lia]; fail);
+      try (enter_tac HC Hnc; fail).
     (* addSubscription: four branches (join / new trigger, sync / async) *)
     1-4: assert (Hf := wc_fresh _ HC s (proj1 (mem_nIn _ _) Ec)); destruct Hf as [Hf1 Hf2];
       (split;
@@ -221,81 +478,84 @@ Section C12Step.
          |simpl; match goal with |- ?a :: ?b :: log _ = _ => instantiate (1 := [a; b]); reflexivity end
          |reflexivity
          |flags_tac
-         |simpl; auto]
-       | intros s'; cnt_simpl; flags_tac; try lia; rewrite ?Hf1, ?Hf2; simpl; lia ]).
+         |simpl; auto
+         |reflexivity]
+       | unfold texec, R; intros s'; split; cnt_simpl; flags_tac; try lia; rewrite ?Hf1, ?Hf2; simpl; lia ]).
     - (* UnsubscribeSubscription *)
       eapply (removal_wi st (st_log st (if mem s (allsubs st) then [GLeft s] else [])));
         [eapply RG_ext; [|exact HR]; reg_eq_tac
-        |eapply WC_neutral; [exact HC|simpl; reflexivity|destruct (mem s (allsubs st)); reflexivity|flags_tac|simpl; auto]
+        |eapply WC_neutral; [exact HC|simpl; reflexivity|destruct (mem s (allsubs st)); reflexivity|flags_tac|simpl; auto|reflexivity]
         |eapply RM_remove_locked; [|exact Erm]; eapply RG_ext; [|exact HR]; reg_eq_tac
         |reflexivity
         |eexists; split; [simpl; reflexivity|unfold dec_obs; destruct (rr_dec r =? 0); reflexivity]
-        |reflexivity|reflexivity|reflexivity].
+        |reflexivity|reflexivity|reflexivity
+        |reflexivity|reflexivity|eapply remove_locked_wlk; exact Erm|reflexivity].
     - (* removeClient *)
       eapply (removal_wi st (st_log st (map GLeft (of_conn st c (allsubs st)))));
         [eapply RG_ext; [|exact HR]; reg_eq_tac
-        |eapply WC_neutral; [exact HC|simpl; reflexivity| |flags_tac|simpl; auto]
+        |eapply WC_neutral; [exact HC|simpl; reflexivity| |flags_tac|simpl; auto|reflexivity]
         |eapply RM_remove_many; [|exact Erm]; eapply RG_ext; [|exact HR]; reg_eq_tac
         |reflexivity
         |eexists; split; [simpl; reflexivity|unfold dec_obs; destruct (rr_dec r =? 0); reflexivity]
-        |reflexivity|reflexivity|reflexivity].
+        |reflexivity|reflexivity|reflexivity
+        |reflexivity|reflexivity|eapply remove_many_wlk; exact Erm|reflexivity].
       apply forallb_forall. intros o Ho. apply in_map_iff in Ho. destruct Ho as [y [<- _]]. reflexivity.
     - (* shutdownResolver *)
       eapply (removal_wi st (st_flags st true (rctx st)));
         [eapply RG_ext; [|exact HR]; reg_eq_tac
-        |eapply WC_neutral; [exact HC|instantiate (1 := []); reflexivity|reflexivity|flags_tac|simpl; auto]
+        |eapply WC_neutral; [exact HC|instantiate (1 := []); reflexivity|reflexivity|flags_tac|simpl; auto|reflexivity]
         |eapply RM_detach_many; [eapply RG_ext; [|exact HR]; reg_eq_tac| | |exact Erm]
         |reflexivity
         |eexists; split; [simpl; reflexivity|unfold dec_obs; destruct (rr_dec r =? 0); reflexivity]
-        |reflexivity|reflexivity|reflexivity].
+        |reflexivity|reflexivity|reflexivity
+        |reflexivity|reflexivity|eapply detach_many_wlk; exact Erm|reflexivity].
       + simpl. auto.
       + simpl. apply (NoDup_tids (fun t => t_key (trigs st t))); [apply (rg_keys _ HR)|].
         intros k t Hi. apply (rg_ent _ HR _ _ Hi).
-    - (* close(completed_s) *)
-      assert (Hrm : s_removed (subs st s) = true) by (apply Hcl; auto).
+    - (* close(completed_s): writeMu is free *)
+      apply negb_false_iff in Ec. rename n into s.
+      assert (Hrm : s_removed (subs st s) = true) by (eapply Hcl; [reflexivity|apply mem_In; exact Ec]).
+      unfold wheld in Ec0.
       split.
       + constructor; simpl.
         * intros s'. unfold upd. destruct (Nat.eqb_spec s' s); subst; simpl.
           -- rewrite Hrm. split; auto. intros _. right. apply (wc_rem _ HC); auto.
           -- rewrite (wc_rem _ HC). split; auto. intros [Hx|]; auto. discriminate.
-        * split; [apply (wc_rem _ HC); auto|apply (wc_wfl _ HC)].
+        * split; [|apply (wc_wfl _ HC)]. split; [apply (wc_rem _ HC); auto|].
+          pose proof (wc_wl _ HC s) as E. rewrite Ec0 in E. simpl in E. lia.
         * intros s'. unfold nclosed. simpl. unfold upd. rewrite (Nat.eqb_sym s' s).
           destruct (Nat.eqb_spec s s'); subst; simpl; rewrite <- (wc_nclosed _ HC); auto.
         * intros s' Hn. unfold upd. destruct (Nat.eqb_spec s' s); subst; simpl; [|apply (wc_fresh _ HC); auto].
           destruct (wc_fresh _ HC s Hn). congruence.
-      + intros s'. simpl. unfold cntl, upd. simpl. rewrite (Nat.eqb_sym s' s).
-        destruct (Nat.eqb_spec s s'); subst; simpl; lia.
-    - (* writeError *)
-      split; [eapply (WC_write st _ s [OW s CWriteError]); eauto; try solve [simpl; reflexivity]; try solve [repeat constructor; eexists; reflexivity]; try solve [flags_tac]
-             |intros s'; cnt_simpl; lia].
+        * intros s'. unfold nw, nwe. simpl. apply (wc_wl _ HC).
+        * intros s' Hs'. unfold upd. destruct (Nat.eqb_spec s' s); subst; simpl; [congruence|apply (wc_lk _ HC); auto].
+      + unfold texec, R. intros s'. rewrite cntl_close_map. split.
+        * simpl. unfold upd. destruct (Nat.eqb_spec s' s) as [->|Hne]; simpl.
+          -- rewrite mem_rem_same, Ec. unfold cnt. lia.
+          -- rewrite mem_rem_other by auto. unfold cnt. destruct (mem s' l); lia.
+        * simpl. rewrite cntl_map_zero by auto. reflexivity.
     - (* doneTriggerFromUpdater *)
       assert (Hr : In (t_key (trigs st t0), t0) (reg st)).
       { destruct (fix_c v).
         - destruct (is_reg st t) eqn:E; inversion Ec; subst. apply is_reg_true; auto.
-        - apply lookup_reg_In in Ec. destruct (rg_ent _ HR _ _ Ec) as (_ & B & _). rewrite B. exact Ec. }
+        - apply lookup_reg_In in Ec. destruct (rg_ent _ HR _ _ Ec) as (_ & B0 & _). rewrite B0. exact Ec. }
       eapply (removal_wi st st);
         [exact HR|exact HC|eapply RM_detach_locked; eauto|reflexivity
         |eexists; split; [simpl; reflexivity|unfold dec_obs; destruct (rr_dec r =? 0); reflexivity]
-        |reflexivity|reflexivity|reflexivity].
+        |reflexivity|reflexivity|reflexivity
+        |reflexivity|reflexivity|eapply detach_locked_wlk; exact Erm|reflexivity].
     - (* fan-out *)
       split.
-      + eapply WC_neutral; [exact HC|simpl; reflexivity| |flags_tac|simpl; auto].
+      + eapply WC_neutral; [exact HC|simpl; reflexivity| |flags_tac|simpl; auto|reflexivity].
         apply forallb_forall. intros o Ho. apply in_map_iff in Ho. destruct Ho as [y [<- _]]. reflexivity.
-      + intros s'. cnt_simpl. lia.
-    - split; [eapply (WC_write st _ s [OW s CFlush; OW s (CWrite e)]); eauto; try solve [simpl; reflexivity]; try solve [repeat constructor; eexists; reflexivity]; try solve [flags_tac]
-             |intros s'; cnt_simpl; lia].
-    - split; [eapply (WC_write st _ s [OW s CFlushFail; OW s (CWrite e)]); eauto; try solve [simpl; reflexivity]; try solve [repeat constructor; eexists; reflexivity]; try solve [flags_tac]
-             |intros s'; cnt_simpl; lia].
-    - split; [eapply (WC_write st _ s [OW s CWriteError; OW s (CWriteFail e)]); eauto; try solve [simpl; reflexivity]; try solve [repeat constructor; eexists; reflexivity]; try solve [flags_tac]
-             |intros s'; cnt_simpl; lia].
+      + unfold texec, R. intros s'. split; cnt_simpl; lia.
     - (* complete() / error(): the re-test under writeMu *)
-      rewrite Hfa in Ec. simpl in Ec.
-      split; [eapply (WC_write st _ s [OW s (cecall c)]); eauto; try solve [simpl; reflexivity]; try solve [repeat constructor; eexists; reflexivity]; try solve [flags_tac]
-             |intros s'; cnt_simpl; lia].
-    - split; [eapply (WC_write st _ s [OW s CHeartbeatFail]); eauto; try solve [simpl; reflexivity]; try solve [repeat constructor; eexists; reflexivity]; try solve [flags_tac]
-             |intros s'; cnt_simpl; lia].
-    - split; [eapply (WC_write st _ s [OW s CHeartbeat]); eauto; try solve [simpl; reflexivity]; try solve [repeat constructor; eexists; reflexivity]; try solve [flags_tac]
-             |intros s'; cnt_simpl; lia].
+      rewrite Hfa in Ec0. simpl in Ec0. enter_tac HC Hnc.
+    - (* next call of a writer region *)
+      split; [apply WC_next; [exact HC|eapply Hwc; reflexivity]|apply texec_next].
+    - (* leaving a writer region *)
+      split; [apply WC_leave; [exact HC|eapply Hwc; reflexivity]|apply texec_leave; eapply Hwc; reflexivity].
+    - split; [apply WC_leave; [exact HC|eapply Hwc; reflexivity]|apply texec_leave; eapply Hwc; reflexivity].
   Qed.
 
   Lemma cnt_lookup_ge : forall p th i rest thr, lookup_thr th thr = Some (i :: rest) -> p i = true -> cnt p thr > 0.
@@ -311,40 +571,101 @@ Section C12Step.
     intros st a st' HR HC HT Hs.
     assert (Hspawn : forall n p, cnt_noclose p -> spawn st n p = Some st' -> WC st' /\ WT st').
     { intros n p Hp Hsp. apply spawn_spec in Hsp. destruct Hsp as [->|[_ ->]]; auto. split.
-      - eapply WC_neutral; [exact HC|instantiate (1 := []); reflexivity|reflexivity|flags_tac|simpl; auto].
-      - intros s. simpl. rewrite cnt_app. simpl. rewrite Hp. specialize (HT s). lia. }
+      - eapply WC_neutral; [exact HC|instantiate (1 := []); reflexivity|reflexivity|flags_tac|simpl; auto|reflexivity].
+      - intros s. simpl. rewrite !cnt_app. simpl. destruct (Hp s) as [-> ->]. destruct (HT s). split; lia. }
     destruct a; simpl in Hs.
-    - eapply Hspawn; [|exact Hs]. intros s. destruct op; reflexivity.
-    - destruct (t <? ntrig st); [|discriminate]. eapply Hspawn; [|exact Hs]. intros s. destruct op; reflexivity.
-    - eapply Hspawn; [|exact Hs]. intros s. reflexivity.
+    - eapply Hspawn; [|exact Hs]. intros s. destruct op; split; reflexivity.
+    - destruct (t <? ntrig st); [|discriminate]. eapply Hspawn; [|exact Hs]. intros s. destruct op; split; reflexivity.
+    - eapply Hspawn; [|exact Hs]. intros s. split; reflexivity.
     - apply step_AStep in Hs. destruct Hs as (i & rest & st1 & push & sp & Hl & He & Heq).
-      assert (Hcl : forall s0, i = IClose s0 -> s_removed (subs st s0) = true).
-      { intros s0 ->. specialize (HT s0).
-        assert (cnt (is_close s0) (threads st) > 0) by (eapply cnt_lookup_ge; [exact Hl|simpl; apply Nat.eqb_refl]).
+      assert (Hcl : forall l s0, i = ICloseLoop l -> In s0 l -> s_removed (subs st s0) = true).
+      { intros l s0 -> Hin. destruct (HT s0) as [HT0 _].
+        assert (cnt (is_close s0) (threads st) > 0) by (eapply cnt_lookup_ge; [exact Hl|simpl; apply mem_In; exact Hin]).
         destruct (s_removed (subs st s0)); auto. lia. }
-      destruct (WI_exec _ _ _ _ _ _ HR HC Hcl He) as [HC1 HT1]. split.
-      + subst st'. eapply WC_neutral; [exact HC1|instantiate (1 := []); reflexivity|reflexivity|flags_tac|simpl; auto].
-      + intros s. pose proof (step_cnt v flt wresf ev_bad hbfail (is_close s) _ _ _ _ _ _ _ _ _ Hl He Heq) as Hc.
-        specialize (HT1 s). specialize (HT s). unfold R in HT1.
-        assert (subs st' s = subs st1 s) by (subst st'; reflexivity). rewrite H. lia.
+      assert (Hnc : forall s0, s_removed (subs st s0) = false -> s_closed (subs st s0) = 0).
+      { intros s0 Hr. destruct (HT s0) as [HT0 _]. rewrite Hr in HT0. lia. }
+      assert (Hwc : forall s0 c m u, i = IWCont s0 c m u -> mem s0 (wlk st) = true).
+      { intros s0 c m u ->. destruct (HT s0) as [_ HT1].
+        assert (cnt (is_wcont s0) (threads st) > 0) by (eapply cnt_lookup_ge; [exact Hl|simpl; apply Nat.eqb_refl]).
+        destruct (mem s0 (wlk st)); auto. simpl in HT1. lia. }
+      destruct (WI_exec _ _ _ _ _ _ HR HC Hcl Hnc Hwc He) as [HC1 HT1]. split.
+      + subst st'. eapply WC_neutral; [exact HC1|instantiate (1 := []); reflexivity|reflexivity|flags_tac|simpl; auto|reflexivity].
+      + intros s.
+        pose proof (step_cnt v flt wresf ev_bad hbfail (is_close s) _ _ _ _ _ _ _ _ _ Hl He Heq) as Hc.
+        pose proof (step_cnt v flt wresf ev_bad hbfail (is_wcont s) _ _ _ _ _ _ _ _ _ Hl He Heq) as Hc2.
+        destruct (HT1 s) as [HT1a HT1b]. destruct (HT s) as [HTa HTb]. unfold R in HT1a.
+        assert (subs st' s = subs st1 s) by (subst st'; reflexivity).
+        assert (wlk st' = wlk st1) by (subst st'; reflexivity). rewrite H, H0. split; lia.
   Qed.
 End C12Step.
 
 (* ---- from the invariants to the statements of Spec.v ---- *)
-Lemma wfl_app_r : forall a b, wfl (a ++ b) -> wfl b.
-Proof. induction a; simpl; intros; auto. apply IHa. tauto. Qed.
+(* the two log predicates of Spec.v as histories *)
+Definition ncond (o : obs) (p : list obs) : Prop :=
+  match o with
+  | OW s _ | OWE s _ => nclosed s p = 0
+  | OClosed s => nw s p = nwe s p
+  | _ => True
+  end.
+Definition xcond (o : obs) (p : list obs) : Prop :=
+  match o with
+  | OW s _ => nw s p = nwe s p
+  | OWE s _ => nw s p = S (nwe s p)
+  | _ => True
+  end.
+
+Lemma hist_impl : forall (c1 c2 : obs -> list obs -> Prop) l, (forall o p, c1 o p -> c2 o p) -> hist c1 l -> hist c2 l.
+Proof. unfold hist; intros. eauto. Qed.
+
+Lemma nwac_hist : forall l, no_write_after_completed l <-> hist ncond l.
+Proof.
+  intros l. unfold no_write_after_completed, hist. split.
+  - intros (H1 & H2 & H3) l1 o l2 E.
+    assert (Hnc : forall s, (forall c, o = OW s c \/ o = OWE s c -> True) ->
+                            (exists c, o = OW s c \/ o = OWE s c) -> nclosed s (rev l1) = 0).
+    { intros s _ [c Hc]. apply nclosed_zero. intros Hi. apply in_rev in Hi. apply in_split in Hi.
+      destruct Hi as (a & b & ->). rewrite <- app_assoc in E. simpl in E.
+      destruct Hc as [->| ->]; [apply (H1 _ _ _ c E)|apply (H2 _ _ _ c E)]; apply in_or_app; right; left; reflexivity. }
+    destruct o; simpl; auto.
+    + apply Hnc; eauto.
+    + apply Hnc; eauto.
+    + rewrite nw_rev, nwe_rev. eapply H3; eauto.
+  - intros H. split; [|split].
+    + intros l1 l2 s c E Hi. apply in_split in Hi. destruct Hi as (a & b & ->).
+      specialize (H (l1 ++ OClosed s :: a) (OW s c) b). rewrite <- app_assoc in H. specialize (H E). simpl in H.
+      apply nclosed_zero in H. apply H. apply in_rev. rewrite rev_involutive. apply in_or_app. right. left. reflexivity.
+    + intros l1 l2 s c E Hi. apply in_split in Hi. destruct Hi as (a & b & ->).
+      specialize (H (l1 ++ OClosed s :: a) (OWE s c) b). rewrite <- app_assoc in H. specialize (H E). simpl in H.
+      apply nclosed_zero in H. apply H. apply in_rev. rewrite rev_involutive. apply in_or_app. right. left. reflexivity.
+    + intros l1 l2 s E. specialize (H l1 (OClosed s) l2 E). simpl in H. rewrite nw_rev, nwe_rev in H. exact H.
+Qed.
+
+Lemma wx_hist : forall l, writes_exclusive l <-> hist xcond l.
+Proof.
+  intros l. unfold writes_exclusive, hist. split; intros H l1 o l2 E; specialize (H l1 o l2 E);
+    destruct o; simpl in *; auto; rewrite ?nw_rev, ?nwe_rev in *; auto.
+Qed.
 
 Lemma wfl_nwac : forall l, wfl l -> no_write_after_completed (rev l).
 Proof.
-  unfold no_write_after_completed. intros l Hw l1 l2 s c Heq Hin.
-  assert (El : l = rev l2 ++ OClosed s :: rev l1).
-  { rewrite <- (rev_involutive l), Heq, rev_app_distr. simpl. rewrite <- app_assoc. reflexivity. }
-  apply in_rev in Hin. apply in_split in Hin. destruct Hin as (a & b & Hab).
-  rewrite Hab, <- app_assoc in El. simpl in El. subst l.
-  apply wfl_app_r in Hw. simpl in Hw. destruct Hw as [Hn Hw].
-  apply wfl_app_r in Hw. simpl in Hw. destruct Hw as [Hy _].
-  apply Hn. apply in_or_app. right. right. exact Hy.
+  intros l Hw. apply nwac_hist. apply histr_hist in Hw. eapply hist_impl; [|exact Hw].
+  intros o p. destruct o; simpl; tauto.
 Qed.
+Lemma wfl_wx : forall l, wfl l -> writes_exclusive (rev l).
+Proof.
+  intros l Hw. apply wx_hist. apply histr_hist in Hw. eapply hist_impl; [|exact Hw].
+  intros o p. destruct o; simpl; tauto.
+Qed.
+
+(* the boolean checkers are exact *)
+Lemma nwac_cb_ok : forall o p, nwac_cb o p = true <-> ncond o p.
+Proof. intros o p. destruct o; simpl; try tauto; try apply Nat.eqb_eq. Qed.
+Lemma wx_cb_ok : forall o p, wx_cb o p = true <-> xcond o p.
+Proof. intros o p. destruct o; simpl; try tauto; try apply Nat.eqb_eq. Qed.
+Lemma no_write_after_completed_b_ok : forall l, no_write_after_completed_b l = true <-> no_write_after_completed l.
+Proof. intros. rewrite nwac_hist. apply (hist_b_ok ncond nwac_cb nwac_cb_ok). Qed.
+Lemma writes_exclusive_b_ok : forall l, writes_exclusive_b l = true <-> writes_exclusive l.
+Proof. intros. rewrite wx_hist. apply (hist_b_ok xcond wx_cb wx_cb_ok). Qed.
 
 Lemma nclosed_count : forall s l, nclosed s l = count_occ Nat.eq_dec (closes l) s.
 Proof.
@@ -368,7 +689,7 @@ Section C12Main.
 
   Lemma WC_init : WC init /\ WT init.
   Proof.
-    split; [constructor; simpl; intros; auto; try tauto|intros s; reflexivity].
+    split; [constructor; simpl; intros; auto; try tauto; try discriminate|intros s; split; reflexivity].
     split; [discriminate|tauto].
   Qed.
 
@@ -388,7 +709,7 @@ Section C12Main.
     intros st H. apply WI_reachable in H. destruct H as (_ & HC & HT).
     unfold completed_once, chron. rewrite closes_rev. apply NoDup_rev.
     apply (NoDup_count_occ Nat.eq_dec). intros s. rewrite <- nclosed_count, (wc_nclosed _ HC).
-    specialize (HT s). destruct (s_removed (subs st s)); lia.
+    destruct (HT s) as [HT0 _]. destruct (s_removed (subs st s)); lia.
   Qed.
 
   (* the stronger fact behind both: no writer call after the removal (CAS) of the subscriber, and the
@@ -396,60 +717,71 @@ Section C12Main.
   Lemma closed_flag_counts : forall st s, reach st -> s_closed (subs st s) = nclosed s (log st) /\ s_closed (subs st s) <= 1.
   Proof.
     intros st s H. apply WI_reachable in H. destruct H as (_ & HC & HT). split; [symmetry; apply (wc_nclosed _ HC)|].
-    specialize (HT s). destruct (s_removed (subs st s)); lia.
+    destruct (HT s) as [HT0 _]. destruct (s_removed (subs st s)); lia.
   Qed.
 
-  (* writes_exclusive: every writer call is made by an instruction that is a writeMu region of that
-     subscriber; regions are single transitions of the LTS, hence never overlap. *)
+  (* writes_exclusive, log form: per subscriber the calls alternate enter / return *)
+  Lemma writes_exclusive_log_holds : forall st, reach st -> writes_exclusive (chron st).
+  Proof. intros st H. apply WI_reachable in H. destruct H as (_ & HC & _). apply wfl_wx, (wc_wfl _ HC). Qed.
+
+  (* writeMu: held exactly while a call is in progress; never while completed is closed *)
+  Lemma wlock_holds : forall st s, reach st ->
+    nw s (chron st) = nwe s (chron st) + B (mem s (wlk st)) /\ (mem s (wlk st) = true -> s_closed (subs st s) = 0).
+  Proof.
+    intros st s H. apply WI_reachable in H. destruct H as (_ & HC & _). unfold chron. rewrite nw_rev, nwe_rev.
+    split; [apply (wc_wl _ HC)|apply (wc_lk _ HC)].
+  Qed.
+
+  (* writes_exclusive, transition form: every entry or return of a writer call of s is logged by an
+     instruction that is (part of) a writeMu region of that subscriber. *)
   Definition w_region (i : instr) : option sid :=
     match i with
-    | IWriteErr s | IKidWrite _ s _ _ | ICEWrite s _ | IHbSend s => Some s
+    | IWriteErr s | IKidWrite _ s _ _ | ICEWrite s _ | IHbSend s | IWCont s _ _ _ => Some s
     | _ => None
     end.
 
-  Definition is_ow (s : sid) (o : obs) : bool := match o with OW s' _ => s' =? s | _ => false end.
-  Definition nw (s : sid) (l : list obs) : nat := length (filter (is_ow s) l).
+  Definition nwc (s : sid) (l : list obs) : nat := nw s l + nwe s l.     (* entries + returns *)
 
-  Lemma nw_app : forall s a b, nw s (a ++ b) = nw s a + nw s b.
-  Proof. unfold nw; intros; rewrite filter_app, app_length; auto. Qed.
-  Lemma nw_quiet : forall s a, forallb quiet a = true -> nw s a = 0.
+  Lemma nw_quiet : forall s a, forallb quiet a = true -> nwc s a = 0.
   Proof.
-    unfold nw; induction a; simpl; intros; auto. apply andb_true_iff in H. destruct H.
+    unfold nwc, nw, nwe; induction a; simpl; intros; auto. apply andb_true_iff in H. destruct H.
     destruct a; simpl in *; auto; discriminate.
   Qed.
+  Lemma nwc_app : forall s a b, nwc s (a ++ b) = nwc s a + nwc s b.
+  Proof. unfold nwc; intros; rewrite nw_app, nwe_app; lia. Qed.
   Lemma quiet_map : forall A (f : A -> obs) l, (forall x, quiet (f x) = true) -> forallb quiet (map f l) = true.
   Proof. induction l; simpl; intros; auto. rewrite H, IHl; auto. Qed.
 
-  Lemma nw_RM : forall s st0 st1 r, RM st0 st1 r -> nw s (log st1) = nw s (log st0).
-  Proof. intros. rewrite (rm_log _ _ _ H), nw_app, nw_quiet; auto. apply quiet_map; auto. Qed.
+  Lemma nw_RM : forall s st0 st1 r, RM st0 st1 r -> nwc s (log st1) = nwc s (log st0).
+  Proof. intros. rewrite (rm_log _ _ _ H), nwc_app, nw_quiet; auto. apply quiet_map; auto. Qed.
 
   Lemma writes_exclusive_holds : forall st i x st1 push sp s,
     RG st -> execf st i x = Some (st1, push, sp) ->
-    nw s (log st1) <> nw s (log st) -> w_region i = Some s.
+    nwc s (log st1) <> nwc s (log st) -> w_region i = Some s.
   Proof.
     intros st i x st1 push sp s HR He Hne.
     exec_cases He; simpl in *; try (exfalso; apply Hne; reflexivity);
-      try (unfold nw in Hne; simpl in Hne; destruct (Nat.eqb_spec s0 s); [subst; reflexivity|exfalso; apply Hne; reflexivity]).
+      try (unfold nwc, nw, nwe in Hne; simpl in Hne; destruct (Nat.eqb_spec s0 s); [subst; reflexivity|exfalso; apply Hne; reflexivity]).
     - exfalso. apply Hne. unfold dec_obs.
       assert (HR0 : RG (st_log st (if mem s0 (allsubs st) then [GLeft s0] else []))) by (eapply RG_ext; [|exact HR]; reg_eq_tac).
       assert (E := RM_remove_locked _ _ _ _ HR0 Erm).
-      apply (nw_RM s) in E. simpl in E. destruct (rr_dec r =? 0); simpl; unfold nw in *; simpl; rewrite E;
+      apply (nw_RM s) in E. simpl in E. destruct (rr_dec r =? 0); simpl; unfold nwc, nw, nwe in *; simpl; rewrite E;
         destruct (mem s0 (allsubs st)); reflexivity.
     - exfalso. apply Hne. unfold dec_obs.
       assert (HR0 : RG (st_log st (map GLeft (of_conn st c (allsubs st))))) by (eapply RG_ext; [|exact HR]; reg_eq_tac).
       assert (E := RM_remove_many _ _ _ _ HR0 Erm).
-      apply (nw_RM s) in E. simpl in E. rewrite ?nw_app in E. rewrite (nw_quiet s (map GLeft (of_conn st c (allsubs st)))) in E by (apply quiet_map; auto).
-      destruct (rr_dec r =? 0); simpl; unfold nw in *; simpl; rewrite E; reflexivity.
+      apply (nw_RM s) in E. simpl in E. rewrite ?nwc_app in E. rewrite (nw_quiet s (map GLeft (of_conn st c (allsubs st)))) in E by (apply quiet_map; auto).
+      destruct (rr_dec r =? 0); simpl; unfold nwc, nw, nwe in *; simpl; rewrite E; reflexivity.
     - exfalso. apply Hne. unfold dec_obs.
       assert (E : RM (st_flags st true (rctx st)) st0 r).
       { eapply RM_detach_many; [eapply RG_ext; [|exact HR]; reg_eq_tac| | |exact Erm]; simpl; auto.
         apply (NoDup_tids (fun t => t_key (trigs st t))); [apply (rg_keys _ HR)|]. intros k t Hi. apply (rg_ent _ HR _ _ Hi). }
-      apply (nw_RM s) in E. simpl in E. destruct (rr_dec r =? 0); simpl; unfold nw in *; simpl; rewrite E; reflexivity.
+      apply (nw_RM s) in E. simpl in E. destruct (rr_dec r =? 0); simpl; unfold nwc, nw, nwe in *; simpl; rewrite E; reflexivity.
     - exfalso. apply Hne. unfold dec_obs.
       assert (Hr : In (t_key (trigs st t0), t0) (reg st)).
       { simpl in Ec. destruct (is_reg st t) eqn:E; inversion Ec; subst. apply is_reg_true; auto. }
       assert (E := RM_detach_locked _ _ _ _ HR Hr Erm).
-      apply (nw_RM s) in E. destruct (rr_dec r =? 0); simpl; unfold nw in *; simpl; rewrite E; reflexivity.
-    - exfalso. apply Hne. rewrite nw_app, nw_quiet; auto. apply quiet_map; auto.
+      apply (nw_RM s) in E. destruct (rr_dec r =? 0); simpl; unfold nwc, nw, nwe in *; simpl; rewrite E; reflexivity.
+    - exfalso. apply Hne. rewrite nwc_app, nw_quiet; auto. apply quiet_map; auto.
   Qed.
 End C12Main.
